@@ -130,6 +130,11 @@ ConcVerdict(r) ==
                THEN V("C04", "after gets that failed on the read path, a get hangs, fails or misreads: the ability to serve reads is reduced")
         ELSE IF r.left > 0 THEN V("drift", "the injected read-path faults were not all consumed")
         ELSE OK
+    ELSE IF r.kind = "pool-contention" THEN
+        IF r.stuck > 0 THEN V("C04", "gets wait forever for a reader although every reader has been returned (all readers held, more gets waiting, readers returned together): " \o r.first_bad)
+        ELSE IF r.wrong > 0 THEN V("C04", "a get that had to wait for a reader fails or misreads: " \o r.first_bad)
+        ELSE IF r.rounds_with_all_readers_held < r.rounds THEN V("drift", "the gets could not all be held right after taking their readers")
+        ELSE OK
     ELSE IF r.kind = "forced-merge-vs-get" THEN
         IF ~r.parked THEN V("drift", "the get could not be parked between lookup and read")
         ELSE IF r.get # r.expect THEN V("C04", "a get that overlaps a merge pass fails or misreads: " \o r.get)
